@@ -4,6 +4,7 @@ CONSTANTS
   Gens <- Gens_quick
   TNSet <- TNSet_quick
   PostGens <- PostGens_all
+  Gens3 <- Gens3_all
   MaxDepth = 2
   MaxD = 125
 CHECK_DEADLOCK FALSE
@@ -15,4 +16,5 @@ INVARIANT C18_Refusals
 INVARIANT C18_BoundingBox
 INVARIANT C18_Classes
 INVARIANT C18_UniformBecomesUniform
+INVARIANT C18_InterpReproducesAffine
 INVARIANT C18_QuarterTurnEqualsRotate90
